@@ -8,5 +8,5 @@ rsync -a --exclude .git /repo/ "$T/tree/"
 cd "$T/tree" || exit 2
 if GIT_DIR=/nonexistent git apply --whitespace=nowarn "$P" 2>/dev/null || patch -p1 -s --no-backup-if-mismatch -i "$P" >/dev/null 2>&1; then echo "APPLY=ok"; else echo "APPLY=failed"; rm -rf "$T"; exit 3; fi
 export GOFLAGS=-mod=mod GOPROXY=off GOSUMDB=off GOTOOLCHAIN=local GOWORK=off
-"$BIN" -verif "$VD" -repo "$T/tree" -prop all -out "$T/ev" 2>&1 | grep -E "^(VIOLATION|UNDECIDED|  C[0-9][0-9]\.R|checker panic)" | cut -c1-300
+"$BIN" -verif "$VD" -repo "$T/tree" -prop all -out "$T/ev" 2>&1 | grep -E "^(VIOLATION|UNDECIDED|  C[0-9][0-9]\.[RE]|checker panic)" | cut -c1-300
 cd /; rm -rf "$T"
